@@ -121,6 +121,18 @@ evaluating context). The model is a model of the repaired tree.
   and every non-blank, non-triple-quote line is among them (loop invariant over `stepLine` with the recursive call abstracted, then
   induction over the recursion).  *Depth exactness* (C14): `C14_nest_exact` — `k` running IF/ELIF/ELSE blocks nested around stack-free
   code overflow with `d` stacks to spare iff `d < k`, for every `k` and `d` (ELSE-in-ELSE is a kernel-checked instance).
+  Later in session 4: *every kind of leaf* is now inside the scanner theorems — signed / decimal literals (Lemmas/LexNum) and names
+  beginning with T or F anywhere in a compound expression (Lemmas/LexNameTF: Boolean phase, departure, restart with the class
+  black-listed, Variable phase, in `Steps` form) — and the fuel guard is discharged for structured expressions of ANY nesting depth
+  (`C04_nested_total`, `C04_nested_value`; Lemmas/NoFuel: no value operation, literal conversion or operator ever returns the model's
+  fuel answer, tree building keeps the leaves).  `C03_line_text_kept` (the text of every line of the tree is its source line minus leading
+  white space, any input).  `C08_block_creates_nothing` / `C08_repeat_creates_nothing` / `C08_while_creates_nothing` /
+  `C08_run_creates_nothing` / `C08_block_keeps_functions` (whole block statements and calls, any body — the child executor is arbitrary —,
+  any number of iterations, every exit path: no user variable and no function exists afterwards that did not exist before).
+  `C11_verbatim_group` (a group between two triple-quote lines is exactly the lines in between, relative indentation kept).
+  `C13_acceptance_is_history_independent` (whether an import is accepted depends only on the files of the live stacks and the file system).
+  `C14_compile_nest_exact` (exactness of the limit through `Compiler.compile` for every `k` and `L ≥ 1`).  `C18_only_print_writes_the_log`
+  (a program without a plain PRINT at a command position compiles with an empty log — corollary of the simulation).
 * **Process-state snapshot** (session 4): the C17 harness now compares, before and after every history, the interpreter's settings
   (recursion limit, integer-digit limit, working directory, environment, decimal context, warning filters, thread count, `sys.path`) and
   every module-level and class-level attribute of every loaded `ducklingscript` module (plain introspection, no hook) — what DESIGN §5/C17
